@@ -35,6 +35,29 @@ def inp_stmts(n):
     return w
 
 
+MIX = {'terms': [('a', 97), ('+', 43), ('*', 42), ('(', 40), (')', 41), ('i', 105), ('=', 61), (';', 59)],
+       'rules': [('P', ['SL'], None, 0, [0]), ('SL', ['SL', 'ST'], 'sl', 0, [0, 1]), ('SL', ['ST'], None, 0, [0]),
+                 ('ST', ['i', '=', 'E', ';'], 'as', 0, [0, 2])] + EXPR_RULES}
+SHAPES = [[105, 61, 40, 97, 42, 97, 41, 59], [105, 61, 97, 43, 40, 97, 42, 97, 41, 59], [105, 61, 97, 42, 40, 97, 42, 97, 41, 59]]
+
+
+def inp_mix_block(n):
+    k = max(1, n // 28)
+    w = []
+    for sh in SHAPES:
+        w += sh * k
+    return w
+
+
+def inp_mix_inter(n):
+    k = max(1, n // 28)
+    w = []
+    for _ in range(k):
+        for sh in SHAPES:
+            w += sh
+    return w
+
+
 FAM = [('list', LIST, inp_list), ('expr', EXPR, inp_expr), ('stmts', STMTS, inp_stmts)]
 
 # envelopes calibrated on the pinned tree (observed maxima: 392 bytes, 9.5 searches, 12.4 collisions per token at 64k)
@@ -53,12 +76,17 @@ def run(pid, tier, seed, replay=None):
     quick = tier == 'quick'
     sizes = [1000, 2000, 4000, 8000, 16000, 32000] + ([] if quick else [64000, 128000, 256000, 512000])
     script, meta = [], []
-    for name, g, mk in FAM:
-        for la in (0, 1, 2):
-            for n in sizes:
+    runs = [(name, g, mk, la, 1, sizes) for name, g, mk in FAM for la in (0, 1, 2)]
+    # all parses requested (the table of parse states is in use): same inputs, shorter series
+    runs += [(name + '/all', g, mk, la, 0, [s for s in sizes if s <= (16000 if quick else 64000)]) for name, g, mk in FAM for la in (0, 1, 2)]
+    # the same statements block-wise and interleaved: identical sets must be found again, not rebuilt, whatever the order
+    runs += [('mix/block', MIX, inp_mix_block, la, 1, [s for s in sizes if s <= 32000]) for la in (0, 1, 2)]
+    runs += [('mix/inter', MIX, inp_mix_inter, la, 1, [s for s in sizes if s <= 32000]) for la in (0, 1, 2)]
+    for name, g, mk, la, one, szs in runs:
+            for n in szs:
                 w = mk(n)
                 cid = '%s_%d_%d' % (name, la, n)
-                script.append('\n'.join(['CASE ' + cid, 'NEW 0', 'SET 0 0 %d' % la] + yvlib.script_read(0, g, 1) +
+                script.append('\n'.join(['CASE ' + cid, 'NEW 0', 'SET 0 0 %d' % la, 'SET 0 2 %d' % one] + yvlib.script_read(0, g, 1) +
                                         ['COUNTERS', 'PARSE 0 1 %d %s' % (len(w), ' '.join(map(str, w))), 'COUNTERS', 'FREEG 0', 'END']))
                 meta.append((name, la, n, len(w)))
     res = yvlib.run_driver(exe, '\n'.join(script), timeout_case=600, batch=1)
@@ -97,6 +125,14 @@ def run(pid, tier, seed, replay=None):
                     if pd[k] > 0 and d[k] > lim * pd[k]:
                         chk.violation(sig % ('ratio-' + k), '%s grows by a factor %.2f when the input doubles (%d -> %d tokens)' % (k, d[k] / pd[k], pn, ln), rep)
         series[key] = (ln, d)
-    chk.cov['rule'] = ('3 deterministic left-recursive grammars (list, E/T/F expressions, statement list) x lookahead 0,1,2 x input lengths %s; linear envelopes and '
+        if name == 'mix/inter':
+            blk = [t for t in table if t['grammar'] == 'mix/block' and t['la'] == la and t['tokens'] == ln]
+            if blk and d['searches'] > 1.05 * blk[0]['searches'] + 50:
+                chk.violation(sig % 'order', 'the same statements interleaved need %d hash searches, block-wise %d: identical sets are rebuilt instead of found again' % (
+                    d['searches'], blk[0]['searches']), rep)
+    if os.environ.get('YV_WORK_TABLE'):
+        for t in table:
+            print(t)
+    chk.cov['rule'] = ('3 deterministic left-recursive grammars (list, E/T/F expressions, statement list) x lookahead 0,1,2 x input lengths %s, one parse and all parses requested; the same statements block-wise and interleaved (work must not depend on the order); linear envelopes and '
                        'doubling ratios calibrated on the pinned tree with margin; measurement, not a theorem' % sizes)
     return chk.finish(extra_cov={'stream': {'table': table, 'envelopes': ENV, 'ratios': RATIO}})
